@@ -11,6 +11,7 @@ type Shape = Vec<(String, usize)>;
 const NAMES: [&str; 14] = ["a", "b", "c", "d", "e", "f", "row", "column", "x", "y", "z", "u", "v", "w"];
 const GET_VIAS: [&str; 7] = ["ref", "mut", "access", "access_mut", "view_get_ref", "view_get", "boxed_ref"];
 const SET_VIAS: [&str; 3] = ["mut", "access_mut", "view_get_ref_mut"];
+const FIRST_VIAS: [&str; 6] = ["map_mut", "map", "map_with_index", "map_mut_with_index", "iter", "iter_reference_mut"];
 const MAX: usize = usize::MAX;
 
 #[derive(Clone)]
@@ -483,14 +484,28 @@ fn probes(g: &mut Gen, ls: &[usize], full: bool) {
     }
     let how = if g.rng.chance(1, 2) { "display" } else { "display via=access" };
     g.op(how.into());
-    for n in ["a", "b", "x", "row", "zz"] {
-        if full || g.rng.chance(1, 3) {
+    for n in ["a", "b", "x", "row", "zz", "r", "ro", "rows", "colum", "column", "_empty_", "c"] {
+        if full || g.rng.chance(1, 4) {
             g.op(format!("length_of {}", n));
         }
     }
     g.op("layout".into());
     g.op("memorder".into());
     let product: usize = ls.iter().product();
+    // a closure that gives up at its k-th call, then the survivor is used as before
+    if product <= 4096 {
+        for _ in 0..(if full { 2 } else { 1 }) {
+            let k = match g.rng.below(4) {
+                0 => 0,
+                1 => product,
+                2 => product.saturating_sub(1),
+                _ => g.rng.below(product.min(24) + 1),
+            };
+            let via = *g.rng.pick(&FIRST_VIAS);
+            g.op(format!("first {} via={}", k, via));
+            g.count(&format!("first.{}", via));
+        }
+    }
     // in range
     let inside: Vec<Vec<usize>> = if product <= if full { 128 } else { 48 } {
         cartesian(&ls.iter().map(|&l| (0..l).collect()).collect::<Vec<_>>())
@@ -900,6 +915,11 @@ fn matrix_stacks(g: &mut Gen) {
         (matrix(3, 3, " via=with_names+box"), "from+direct"),
         (tensor(&[("r", 9), ("c", 11)], &[]), "with_names+box"),
         (tensor(&[("c", 12), ("r", 9)], &[("access r,c", vec![("r", 9), ("c", 12)])]), "with_names"),
+        // the names the interop wrappers use themselves, at the other position / only one of them
+        (tensor(&[("column", 3), ("row", 4)], &[]), "with_names"),
+        (tensor(&[("column", 3), ("row", 4)], &[("access row,column", vec![("row", 4), ("column", 3)])]), "from"),
+        (tensor(&[("row", 3), ("x", 4)], &[]), "with_names"),
+        (tensor(&[("x", 3), ("column", 4)], &[("access column,x", vec![("column", 4), ("x", 3)])]), "with_names"),
     ];
     if g.thorough {
         bases.push((tensor(&[("r", 1), ("c", 6)], &[]), "with_names"));
@@ -971,6 +991,12 @@ fn probes_large(g: &mut Gen, ls: &[usize]) {
     g.op("sources via=ref".into());
     for n in ["a", "b", "f", "zz"] {
         g.op(format!("length_of {}", n));
+    }
+    let product: usize = ls.iter().product();
+    if product <= 4096 {
+        let via = *g.rng.pick(&FIRST_VIAS);
+        let k = g.rng.below(product.min(80) + 1);
+        g.op(format!("first {} via={}", k, via));
     }
     let mut idxs: Vec<Vec<usize>> = vec![];
     // every corner
@@ -1144,6 +1170,219 @@ fn large(g: &mut Gen) {
     }
 }
 
+/// adaptors whose arguments change nothing (or are undone by a second application), for a view
+/// of the given shape: the line and the shape afterwards
+fn noop_lines(shape: &Shape) -> Vec<(String, Shape)> {
+    let d = shape.len();
+    let own = join(&names(shape));
+    let mut out: Vec<(String, Shape)> = vec![];
+    for kind in ["range", "mask"] {
+        out.push((format!("{} -", kind), shape.clone()));
+    }
+    if d >= 1 {
+        let all: Vec<String> = shape.iter().map(|(n, l)| format!("{}:0:{}", n, l)).collect();
+        out.push((format!("range {}", join(&all)), shape.clone()));
+        out.push((format!("range {}:0:{} kind=strict via=from_all", shape[0].0, shape[0].1), shape.clone()));
+        out.push((format!("range {}:0:{}", shape[d - 1].0, MAX), shape.clone()));
+        let none: Vec<String> = shape.iter().map(|(n, l)| format!("{}:{}:0", n, l / 2)).collect();
+        out.push((format!("mask {}", join(&none)), shape.clone()));
+        out.push((format!("mask {}:0:0 kind=strict", shape[0].0), shape.clone()));
+        out.push((format!("mask {}:{}:3", shape[d - 1].0, shape[d - 1].1), shape.clone()));
+        out.push((format!("chain 1 {}", shape[0].0), shape.clone()));
+        out.push((format!("reverse {}", shape[d - 1].0), shape.clone()));
+    }
+    out.push(("reverse -".into(), shape.clone()));
+    out.push((format!("rename {}", own), shape.clone()));
+    out.push((format!("access {}", own), shape.clone()));
+    out.push((format!("access {} via=tv_mut", own), shape.clone()));
+    out.push((format!("transpose {}", own), shape.clone()));
+    if d >= 2 {
+        let mut sw = names(shape);
+        sw.swap(0, d - 1);
+        let mut a = shape.clone();
+        a.swap(0, d - 1);
+        out.push((format!("access {}", join(&sw)), a));
+        let mut t = shape.clone();
+        let (l0, l1) = (t[0].1, t[d - 1].1);
+        t[0].1 = l1;
+        t[d - 1].1 = l0;
+        out.push((format!("transpose {}", join(&sw)), t));
+    }
+    if d < 6 {
+        let used = names(shape);
+        let extra = ["x", "y", "z", "u", "v", "w", "p"].iter().find(|n| !used.iter().any(|u| u == *n)).unwrap().to_string();
+        for pos in 0..=d {
+            let mut e = shape.clone();
+            e.insert(pos, (extra.clone(), 1));
+            out.push((format!("expand {}:{}", pos, extra), e.clone()));
+            if pos == 0 || pos == d {
+                out.push((format!("stack 1 {}:{}", pos, extra), e));
+            }
+        }
+    }
+    for (k, dim) in shape.iter().enumerate() {
+        if dim.1 == 1 {
+            let rest: Shape = (0..d).filter(|i| *i != k).map(|i| shape[i].clone()).collect();
+            out.push((format!("index {}:0", dim.0), rest));
+        }
+    }
+    if d == 2 {
+        out.push((format!("matrixof {} via=with_names", own), shape.clone()));
+        out.push((format!("matrixof {} ops=reverse:0:0 via=with_names", own), shape.clone()));
+        out.push((format!("matrixof {} ops=range:0:{}:0:{} via=with_names", own, MAX, MAX), shape.clone()));
+        out.push((format!("matrixof {} ops=reverse:1:1;reverse:1:1 via=with_names", own), shape.clone()));
+    }
+    out
+}
+
+/// every such adaptor once, twice, and followed by two others
+fn noops(g: &mut Gen) {
+    let mut leaves: Vec<Vec<(&str, usize)>> = vec![vec![("a", 2), ("b", 3)], vec![("a", 2), ("b", 1), ("c", 2)]];
+    if g.thorough {
+        leaves.push(vec![("a", 3)]);
+        leaves.push(vec![]);
+        leaves.push(vec![("a", 1), ("b", 1)]);
+    }
+    for leaf in &leaves {
+        let base = leaf_of(leaf);
+        for (l1, s1) in noop_lines(&base.shape) {
+            let t1 = with_line(&base, l1.clone(), Some(s1.clone()));
+            g.count("noop.once");
+            emit(g, &t1, true, false);
+            let second = noop_lines(&s1);
+            let mut picks: Vec<(String, Shape)> = vec![];
+            // the same adaptor again (an expansion needs another name: take the same position)
+            let head = l1.split(' ').next().unwrap().to_string();
+            if let Some(again) = second.iter().find(|(l, _)| *l == l1).or_else(|| second.iter().find(|(l, _)| l.starts_with(&head))) {
+                picks.push(again.clone());
+            }
+            for _ in 0..2 {
+                picks.push(second[g.rng.below(second.len())].clone());
+            }
+            for (l2, s2) in picks {
+                let t2 = with_line(&t1, l2, Some(s2));
+                g.count("noop.twice");
+                emit(g, &t2, false, true);
+            }
+        }
+    }
+}
+
+/// Rewrites the generated cases: in half of them every dimension name is replaced (injectively)
+/// by one of the adversarial names; in a quarter the leaves hold degenerate data (the harness then
+/// recognises cells by address; leaves copied into a view are not used there); in an eighth the
+/// leaf ids start at 0, so that the very first element of the case is the value 0.
+fn adversarial_pass(g: &mut Gen) {
+    let lines = std::mem::take(&mut g.lines);
+    let mut out: Vec<String> = Vec::with_capacity(lines.len());
+    let mut i = 0;
+    while i < lines.len() {
+        let mut j = i + 1;
+        while j < lines.len() && !lines[j].starts_with('@') {
+            j += 1;
+        }
+        if lines[i] != "@ case" {
+            out.extend_from_slice(&lines[i..j]);
+            i = j;
+            continue;
+        }
+        let mut case: Vec<String> = lines[i..j].to_vec();
+        // --- names
+        if g.rng.chance(1, 2) {
+            let mut used: Vec<String> = vec![];
+            for l in &case[1..] {
+                for part in name_parts(l) {
+                    if !used.contains(&part) {
+                        used.push(part);
+                    }
+                }
+            }
+            if used.len() <= ADVERSARIAL_NAMES.len() {
+                let targets = adversarial_names(&mut g.rng, used.len());
+                for l in case.iter_mut().skip(1) {
+                    *l = rename_parts(l, &used, &targets);
+                }
+                g.count("case.adversarial_names");
+            }
+        }
+        // --- data
+        if g.rng.chance(1, 4) {
+            let mode = *g.rng.pick(&["zeros", "equal", "pairs"]);
+            case[0] = format!("@ case data={}", mode);
+            for l in case.iter_mut().skip(1) {
+                if l.contains("via=t_view_owned") {
+                    *l = l.replace("via=t_view_owned", "via=leaf");
+                } else if l.contains("via=t_owned") {
+                    *l = l.replace("via=t_owned", "via=tv_owned");
+                }
+            }
+            g.count(&format!("case.data.{}", mode));
+        } else if g.rng.chance(1, 6) {
+            for l in case.iter_mut().skip(1) {
+                let toks: Vec<&str> = l.split(' ').collect();
+                if (toks[0] == "leaf" || toks[0] == "matrix") && toks.len() > 2 {
+                    if let Ok(id) = toks[1].parse::<u64>() {
+                        let mut t: Vec<String> = toks.iter().map(|x| x.to_string()).collect();
+                        t[1] = (id.saturating_sub(1)).to_string();
+                        *l = t.join(" ");
+                    }
+                }
+            }
+            g.count("case.leaf_ids_from_zero");
+        }
+        out.extend(case);
+        i = j;
+    }
+    g.lines = out;
+}
+
+/// the dimension names in an operation line: the `,` / `:` separated parts, that are not numbers,
+/// of the tokens after the operation's name that are not `key=value` options
+fn name_parts(line: &str) -> Vec<String> {
+    let mut out = vec![];
+    for tok in line.split(' ').skip(1) {
+        if tok.contains('=') {
+            continue;
+        }
+        for part in tok.split(|c| c == ',' || c == ':') {
+            if !part.is_empty() && part != "-" && part.parse::<u128>().is_err() {
+                out.push(part.to_string());
+            }
+        }
+    }
+    out
+}
+
+fn rename_parts(line: &str, from: &[String], to: &[&'static str]) -> String {
+    let mut toks: Vec<String> = vec![];
+    for (k, tok) in line.split(' ').enumerate() {
+        if k == 0 || tok.contains('=') {
+            toks.push(tok.to_string());
+            continue;
+        }
+        let mut t = String::new();
+        let mut part = String::new();
+        let flush = |part: &mut String, t: &mut String| {
+            match from.iter().position(|f| f == part) {
+                Some(p) => t.push_str(to[p]),
+                None => t.push_str(part),
+            }
+            part.clear();
+        };
+        for c in tok.chars() {
+            if c == ',' || c == ':' {
+                flush(&mut part, &mut t);
+                t.push(c);
+            } else {
+                part.push(c);
+            }
+        }
+        flush(&mut part, &mut t);
+        toks.push(t);
+    }
+    toks.join(" ")
+}
+
 /// constructor arguments the library must reject (a separate stream)
 fn malformed(g: &mut Gen) {
     let base = leaf_of(&[("a", 2), ("b", 3), ("c", 2)]);
@@ -1181,6 +1420,22 @@ fn malformed(g: &mut Gen) {
         (vec![("a", 2), ("b", 3)], vec![("a", 5), ("b", 3)], "chain 2 c"),
         (vec![], vec![], "chain 2 a"),
         (vec![], vec![], "chain 1 a"),
+        // the same names in another order (a validation that looked lengths up by NAME would
+        // accept these): equal lengths, lengths that agree name by name, the chained one free
+        (vec![("a", 2), ("b", 2)], vec![("b", 2), ("a", 2)], "stack 2 0:s"),
+        (vec![("a", 2), ("b", 2)], vec![("b", 2), ("a", 2)], "chain 2 a"),
+        (vec![("a", 2), ("b", 2)], vec![("b", 2), ("a", 2)], "chain 2 b"),
+        (vec![("a", 2), ("b", 3)], vec![("b", 3), ("a", 5)], "chain 2 a"),
+        (vec![("a", 2), ("b", 3)], vec![("b", 4), ("a", 2)], "chain 2 b"),
+        (vec![("a", 2), ("b", 3), ("c", 2)], vec![("c", 2), ("a", 2), ("b", 3)], "stack 2 0:s"),
+        (vec![("a", 2), ("b", 3), ("c", 2)], vec![("b", 3), ("c", 2), ("a", 2)], "stack 2 3:s"),
+        (vec![("a", 2), ("b", 3), ("c", 2)], vec![("a", 2), ("c", 2), ("b", 3)], "chain 2 a"),
+        (vec![("a", 2), ("b", 3), ("c", 2)], vec![("c", 2), ("b", 3), ("a", 7)], "chain 2 a"),
+        (vec![("a", 2), ("b", 3), ("c", 2)], vec![("b", 3), ("a", 2), ("c", 4)], "chain 2 c"),
+        (vec![("row", 2), ("column", 3)], vec![("column", 3), ("row", 2)], "stack 2 0:s"),
+        (vec![("row", 2), ("column", 3)], vec![("column", 3), ("row", 4)], "chain 2 row"),
+        (vec![("r", 2), ("row", 2)], vec![("row", 2), ("r", 2)], "chain 2 r"),
+        (vec![("_empty_", 2), ("a", 2)], vec![("a", 2), ("_empty_", 2)], "stack 2 1:s"),
     ];
     for (s1, s2, op) in pairs {
         let mut t = leaf_of(&s1);
@@ -1191,10 +1446,65 @@ fn malformed(g: &mut Gen) {
             emit(g, &t, false, false);
         }
     }
+    // constructors asked through the convenience methods of TensorView / Tensor with arguments
+    // that must be refused: a name that is already there, a name repeated, a name unknown
+    for (line, vias) in [
+        ("expand 0:a", vec!["tv_owned", "tv_mut", "t_mut", "t_owned"]),
+        ("expand 3:c", vec!["tv_owned", "tv_mut", "t_mut", "t_owned"]),
+        ("expand 0:x,1:x", vec!["tv_owned", "tv_mut", "t_mut", "t_owned"]),
+        ("expand 1:x,1:b", vec!["tv_owned", "t_mut"]),
+        ("index a:0,a:1", vec!["tv_owned", "tv_mut", "t_mut", "t_owned"]),
+        ("index zz:0", vec!["tv_owned", "tv_mut", "t_mut", "t_owned"]),
+        ("index b:3", vec!["tv_owned", "tv_mut", "t_mut", "t_owned"]),
+        ("reverse a,a", vec!["tv_owned", "tv_mut", "t_mut", "t_owned"]),
+        ("reverse zz", vec!["tv_owned", "tv_mut", "t_mut", "t_owned"]),
+        ("access a,b,b", vec!["tv_owned", "tv_mut", "t_mut", "t_owned"]),
+        ("access a,b,zz", vec!["tv_owned", "tv_mut", "t_mut", "t_owned"]),
+        ("range a:0:1,a:1:1", vec!["tv_owned", "tv_mut", "t_mut", "t_owned"]),
+        ("range zz:0:1", vec!["tv_owned", "tv_mut", "t_mut", "t_owned"]),
+        ("mask a:0:1,a:1:1", vec!["tv_owned", "tv_mut", "t_mut", "t_owned"]),
+        ("mask b:0:3", vec!["tv_owned", "tv_mut", "t_mut", "t_owned"]),
+    ] {
+        for via in vias {
+            let t = with_line(&base, format!("{} via={}", line, via), None);
+            g.count("malformed.helper");
+            emit(g, &t, false, false);
+        }
+    }
+    // names that only look like a clash: one a part of the other, the empty name next to any
+    for (leaf, line, shape) in [
+        (vec![("row", 2), ("rows", 3)], "expand 0:r,2:ro", vec![("r", 1), ("row", 2), ("rows", 3), ("ro", 1)]),
+        (vec![("ab", 2), ("b", 3)], "expand 1:a", vec![("ab", 2), ("a", 1), ("b", 3)]),
+        (vec![("ab", 2), ("b", 3)], "expand 1:_empty_", vec![("ab", 2), ("_empty_", 1), ("b", 3)]),
+        (vec![("_empty_", 2), ("b", 3)], "expand 0:bb", vec![("bb", 1), ("_empty_", 2), ("b", 3)]),
+        (vec![("xy", 2), ("x", 3)], "rename x,xy", vec![("x", 2), ("xy", 3)]),
+        (vec![("xy", 2), ("x", 3)], "rename y,_empty_", vec![("y", 2), ("_empty_", 3)]),
+        (vec![("column", 2), ("columns", 3)], "stack 1 1:col", vec![("column", 2), ("col", 1), ("columns", 3)]),
+        (vec![("column", 2), ("row", 3)], "matrixof row,rows", vec![("row", 2), ("rows", 3)]),
+        (vec![("column", 2), ("row", 3)], "matrixof column,row", vec![("column", 2), ("row", 3)]),
+        (vec![("column", 2), ("row", 3)], "matrixof row,column via=from", vec![("row", 2), ("column", 3)]),
+        (vec![("aa", 2), ("a", 3)], "index a:2", vec![("aa", 2)]),
+        (vec![("aa", 2), ("a", 3)], "reverse a", vec![("aa", 2), ("a", 3)]),
+        (vec![("aa", 2), ("a", 3)], "range a:1:2", vec![("aa", 2), ("a", 2)]),
+        (vec![("aa", 2), ("a", 3)], "mask a:0:2", vec![("aa", 2), ("a", 1)]),
+        (vec![("aa", 2), ("a", 3)], "access a,aa", vec![("a", 3), ("aa", 2)]),
+        (vec![("aa", 2), ("a", 3)], "transpose a,aa", vec![("aa", 3), ("a", 2)]),
+    ] {
+        for via in ["", "tv_owned", "t_mut"] {
+            if !via.is_empty() && (line.starts_with("rename") || line.starts_with("stack") || line.starts_with("matrixof") || line.starts_with("transpose")) {
+                continue;
+            }
+            let sh: Shape = shape.iter().map(|(n, l)| (n.to_string(), *l)).collect();
+            let l = if via.is_empty() { line.to_string() } else { format!("{} via={}", line, via) };
+            let t = with_line(&leaf_of(&leaf), l, Some(sh));
+            g.count("names.lookalike");
+            emit(g, &t, true, false);
+        }
+    }
     // three and four sources where only a later one does not fit
     for n in [3usize, 4] {
         for bad in 1..n {
-            for (op, bad_shape) in [("stack", "a:2,b:2"), ("stack", "a:2,c:3"), ("chain", "a:3,b:2"), ("chain", "a:1,c:3"), ("chain", "b:3,a:2")] {
+            for (op, bad_shape) in [("stack", "a:2,b:2"), ("stack", "a:2,c:3"), ("stack", "b:3,a:2"), ("chain", "a:3,b:2"), ("chain", "a:1,c:3"), ("chain", "b:3,a:2"), ("chain", "b:3,a:9")] {
                 for via in ["array", "tuple"] {
                     g.op("@ case".into());
                     for k in 0..n {
@@ -1246,6 +1556,8 @@ pub fn gen(g: &mut Gen, static_keys: &[&str], static_ops: &dyn Fn(&str) -> Vec<S
     matrix_stacks(g);
     // 3c. large cases
     large(g);
+    // 3d. adaptors that change nothing, once and twice
+    noops(g);
     // 4. random compositions
     let (max_depth, per_depth) = if g.thorough { (5, 9000) } else { (3, 1200) };
     for depth in 0..=max_depth {
@@ -1257,4 +1569,6 @@ pub fn gen(g: &mut Gen, static_keys: &[&str], static_ops: &dyn Fn(&str) -> Vec<S
             emit(g, &t, false, true);
         }
     }
+    // 5. adversarial names, degenerate data
+    adversarial_pass(g);
 }
